@@ -1,8 +1,23 @@
 """Obligation bookkeeping shared by all rules."""
 import hashlib
+import re
 import json
 import os
 import time
+
+
+_MOD = re.compile(r"(?<![A-Za-z0-9_])(?:r#)?[a-z_][a-z0-9_]*::(?=(?:r#)?[A-Za-z_<])")
+
+
+def norm_key(key):
+    """A key with the private module qualifiers of its type and function paths removed (`sub::SubSocketBackend` ->
+    `SubSocketBackend`): listed keys (known findings, allow entries) are matched in this form, so that moving or renaming a
+    private module neither hides nor duplicates a listed finding. Reported keys themselves stay unnormalised."""
+    prev = None
+    while prev != key:
+        prev = key
+        key = _MOD.sub("", key)
+    return key
 
 
 class Obl:
